@@ -105,16 +105,61 @@ func graceClosures(p *Program) []*ssa.Function {
 	var out []*ssa.Function
 	for _, fn := range p.RepoFuncs() {
 		for _, call := range CallsIn(fn, "grace.RunWithGraceSeconds") {
-			for _, a := range call.Common().Args {
-				if mc, ok := a.(*ssa.MakeClosure); ok {
-					if f, ok := mc.Fn.(*ssa.Function); ok {
-						out = append(out, f)
-					}
+			for _, cal := range p.Callees(call) {
+				if NameMatch(FuncName(cal), "grace.RunWithGraceSeconds") || NameMatch(FuncName(cal), "grace.runWithGraceSeconds") {
+					continue
 				}
+				out = append(out, forwardedBody(cal))
 			}
 		}
 	}
 	return out
+}
+
+// forwardedBody: a function whose body only hands on the results of one repository function
+// (`func() (bool, error) { return m.doIt(c) }`) is judged by that function.
+func forwardedBody(f *ssa.Function) *ssa.Function {
+	for i := 0; i < 2; i++ {
+		var only *ssa.Call
+		n := 0
+		for _, ci := range AllCalls(f) {
+			g := ci.Common().StaticCallee()
+			if g == nil || g.Blocks == nil || g.Pkg == nil || !strings.HasPrefix(g.Pkg.Pkg.Path(), ModPath) {
+				continue
+			}
+			n++
+			if c, ok := ci.(*ssa.Call); ok {
+				only = c
+			}
+		}
+		if n != 1 || only == nil {
+			return f
+		}
+		for _, ret := range returnsOf(f) {
+			if ret.Block() == f.Recover {
+				continue
+			}
+			for _, r := range ret.Results {
+				v := Forwarded(r)
+				if ex, ok := v.(*ssa.Extract); ok {
+					v = ex.Tuple
+				}
+				if v != ssa.Value(only) {
+					return f
+				}
+			}
+		}
+		// nothing else of effect in the forwarding function
+		for _, ci := range AllCalls(f) {
+			if ci != ssa.CallInstruction(only) {
+				if _, isBuiltin := ci.Common().Value.(*ssa.Builtin); !isBuiltin {
+					return f
+				}
+			}
+		}
+		f = only.Call.StaticCallee()
+	}
+	return f
 }
 
 // checkGraceClosures decides the closure half of R6.3 and the wrapper itself.
